@@ -247,3 +247,5 @@ func sortedKeys(m map[string]int) []string {
 	sort.Strings(out)
 	return out
 }
+
+func itoa(n int) string { return strconv.Itoa(n) }
